@@ -48,7 +48,7 @@ def run(oc, tier, seed, model_available, escalate):
     lines, impl = [], []
     for it in range(n):
         shutil.rmtree(d, ignore_errors=True)
-        P = es.gen_params(rng, small=(it % 3 != 0), erasures=False)
+        P = es.gen_params(rng, small=(it % 3 != 0), erasures=None)
         P.no_fast_check = rng.random() < 0.3
         if it == 1:
             tree = {"e1": b"", "sub/e2": b""}
